@@ -192,6 +192,11 @@ def build_cases(tier):
     k += 1   # one scale broadcast over all variables, no offsets
     cases.append(TransformCase(f"c10-{k:03d}", N=2, L=0, C=0, ptypes=("absolute", "relative"), boundary=("none", "truncate_both"),
                                obj_scaler=False, con_scaler=False, offsets=False, scale_form="size1"))
+    # the configured fraction of the bound range, also when one gradient section object serves two configurations
+    from .c18 import PerturbationCase
+    for pt in (("relative", "absolute"), ("relative", "relative")):
+        k += 1
+        cases.append(PerturbationCase(f"c10-{k:03d}", pt))
     if tier == "thorough":
         for combo in itertools.product(btypes, repeat=2):
             add(boundary=combo, ptypes=("relative", "absolute"), bounds=("both", "both"), P=2)
